@@ -23,7 +23,7 @@ CHECKS = {
          "encoding/json is the trusted reference; strings without characters needing escapes; float32 restricted to multiples of 1/8; embedded fields, []byte and multi-level pointers excluded.", "§3 C20"),
  "C06": ("before/after file monitor: independent tag merger (go/parser + hand-written scanner) + byte comparison outside tag literals",
          "Generated Go files of seven shape classes are processed by the library entry points and by the freshly built CLI (-f, -d, -p); for every annotated field the output's ordered key/value list must equal the independently computed merge (existing keys in place, overridden values, new keys appended, no duplicates), every byte outside the annotated fields' tag literals must be unchanged and the output must parse.",
-         "go/parser is trusted; domain limited as the property states (backquoted conventional tags, one trailing comment, top-level declarations; grouped declarations may be processed or not).", "§3 C06"),
+         "go/parser is trusted; domain limited as the property states (backquoted conventional tags, trailing comments of the field — several are merged in order —, top-level declarations; grouped declarations may be processed or not; a value containing a backquote cannot be injected and must leave the field untouched).", "§3 C06"),
  "C07": ("byte-equality monitor over repeated injector runs (histories mixing library, -f, -d, -p)",
          "The C06 corpus plus annotation-free files is processed 2-5 times with randomly mixed entry points; the bytes after run n+1 must equal those after run n, and annotation-free files must never change. The check is vacuous-proofed by requiring that >=90% of annotated files were actually modified by run 1.",
          "Idempotence is judged independently of correctness; SHA/bytes comparison only.", "§3 C07"),
